@@ -1,5 +1,114 @@
-(* C17 property theorems (placeholder until the semantics development lands). *)
-From DD Require Import Spec.Typing.
-Example bv_sort_example : bv_width (sBV 12) = Some 12%N.
-Proof. vm_compute. reflexivity. Qed.
-Print Assumptions bv_sort_example.
+(* C17: the rewrites documented as identities preserve the value of every term
+   that has one (Spec/Semantics.v).  Statements only; proofs in Proofs/Rw. *)
+From DD Require Import Spec.Semantics Model.Rewrites.
+From DD Require Import Proofs.Rw.Range Proofs.Rw.BoolRw Proofs.Rw.BvConst Proofs.Rw.BvRw1 Proofs.Rw.BvRw2 Proofs.Rw.BvRw3 Proofs.Rw.BvRw4.
+Local Open Scope list_scope.
+
+(* ---- Boolean and arithmetic rewrites ---- *)
+Theorem rw_bool_double_neg_identity : forall rho e e' l v,
+  rw_bool_double_neg e = Some l -> In e' l -> eval rho e = Some v -> eval rho e' = Some v.
+Proof. exact bool_double_neg_identity. Qed.
+Print Assumptions rw_bool_double_neg_identity.
+
+Theorem rw_bool_xor_binary_identity : forall rho e e' l v,
+  rw_bool_xor_binary e = Some l -> In e' l -> eval rho e = Some v -> eval rho e' = Some v.
+Proof. exact bool_xor_binary_identity. Qed.
+Print Assumptions rw_bool_xor_binary_identity.
+
+Theorem rw_bool_de_morgan_identity : forall rho e e' l v,
+  rw_bool_de_morgan e = Some l -> In e' l -> eval rho e = Some v -> eval rho e' = Some v.
+Proof. exact bool_de_morgan_identity. Qed.
+Print Assumptions rw_bool_de_morgan_identity.
+
+(* binary implication *)
+Theorem rw_bool_implication_identity : forall rho h a b e' l v,
+  rw_bool_implication (T [L h; a; b]) = Some l -> In e' l ->
+  eval rho (T [L h; a; b]) = Some v -> eval rho e' = Some v.
+Proof. exact bool_implication_identity. Qed.
+Print Assumptions rw_bool_implication_identity.
+
+(* binary equality with false; the valuation does not rebind false and the
+   operands are Boolean (the evaluation of = does not check the sorts) *)
+Theorem rw_bool_false_eq_identity : forall rho h a b e' l v,
+  lookup_v (lit "false") rho = None ->
+  (forall u, eval rho a = Some u -> exists x, u = VB x) ->
+  (forall u, eval rho b = Some u -> exists x, u = VB x) ->
+  rw_bool_false_eq (T [L h; a; b]) = Some l -> In e' l ->
+  eval rho (T [L h; a; b]) = Some v -> eval rho e' = Some v.
+Proof. exact bool_false_eq_identity. Qed.
+Print Assumptions rw_bool_false_eq_identity.
+
+(* negation of a binary relation *)
+Theorem rw_arith_negate_relation_identity : forall rho h r x y e' l v,
+  rw_arith_negate_relation (T [L h; T [L r; x; y]]) = Some l -> In e' l ->
+  eval rho (T [L h; T [L r; x; y]]) = Some v -> eval rho e' = Some v.
+Proof. exact arith_negate_relation_identity. Qed.
+Print Assumptions rw_arith_negate_relation_identity.
+
+(* ---- bit-vector rewrites ---- *)
+Theorem rw_bv_reflexive_nand_identity : forall rho e e' l v,
+  rw_bv_reflexive_nand e = Some l -> In e' l -> eval rho e = Some v -> eval rho e' = Some v.
+Proof. exact bv_reflexive_nand_identity. Qed.
+Print Assumptions rw_bv_reflexive_nand_identity.
+
+(* the valuation holds bit-vector values in range *)
+Theorem rw_bv_double_neg_identity : forall rho e e' l v,
+  (forall k u, lookup_v k rho = Some u -> match u with VV w n => (n < 2 ^ w)%N | _ => True end) ->
+  rw_bv_double_neg e = Some l -> In e' l -> eval rho e = Some v -> eval rho e' = Some v.
+Proof. exact bv_double_neg_identity. Qed.
+Print Assumptions rw_bv_double_neg_identity.
+
+(* range invariant of the evaluation *)
+Theorem eval_in_range : forall rho e w n,
+  (forall k u, lookup_v k rho = Some u -> match u with VV w n => (n < 2 ^ w)%N | _ => True end) ->
+  eval rho e = Some (VV w n) -> (n < 2 ^ w)%N.
+Proof. exact eval_range_bv. Qed.
+Print Assumptions eval_in_range.
+
+(* the equality compares bit-vectors of one width; literals are not bound by the valuation *)
+Theorem rw_bv_ite_to_bvcomp_identity : forall is_bv_term rho h eq x y rest e' l v,
+  (forall s, is_bv_const (L s) = true -> lookup_v s rho = None) ->
+  (forall v1 v2, eval rho x = Some v1 -> eval rho y = Some v2 -> exists w n m, v1 = VV w n /\ v2 = VV w m) ->
+  rw_bv_ite_to_bvcomp is_bv_term (T (L h :: T [L eq; x; y] :: rest)) = Some l -> In e' l ->
+  eval rho (T (L h :: T [L eq; x; y] :: rest)) = Some v -> eval rho e' = Some v.
+Proof. exact bv_ite_to_bvcomp_identity. Qed.
+Print Assumptions rw_bv_ite_to_bvcomp_identity.
+
+Theorem rw_bv_elim_bvcomp_identity : forall bw rho h c g x y e' l v,
+  (forall s, is_bv_const (L s) = true -> lookup_v s rho = None) ->
+  (forall t w n, eval rho t = Some (VV w n) -> bw t = (-1)%Z \/ bw t = Z.of_N w) ->
+  rw_bv_elim_bvcomp bw (T [L h; c; T (L g :: [x; y])]) = Some l -> In e' l ->
+  eval rho (T [L h; c; T (L g :: [x; y])]) = Some v -> eval rho e' = Some v.
+Proof. exact bv_elim_bvcomp_identity. Qed.
+Print Assumptions rw_bv_elim_bvcomp_identity.
+
+Theorem rw_bv_normalize_identity : forall rho e e' l v,
+  (forall s, is_bv_const (L s) = true -> lookup_v s rho = None) ->
+  rw_bv_normalize e = Some l -> In e' l -> eval rho e = Some v -> eval rho e' = Some v.
+Proof. exact bv_normalize_identity. Qed.
+Print Assumptions rw_bv_normalize_identity.
+
+Theorem rw_bv_eval_extend_identity : forall rho e e' l v,
+  (forall s, is_bv_const (L s) = true -> lookup_v s rho = None) ->
+  rw_bv_eval_extend e = Some l -> In e' l -> eval rho e = Some v -> eval rho e' = Some v.
+Proof. exact bv_eval_extend_identity. Qed.
+Print Assumptions rw_bv_eval_extend_identity.
+
+Theorem rw_bv_extract_const_identity : forall rho e e' l v,
+  (forall s, is_bv_const (L s) = true -> lookup_v s rho = None) ->
+  rw_bv_extract_const e = Some l -> In e' l -> eval rho e = Some v -> eval rho e' = Some v.
+Proof. exact bv_extract_const_identity. Qed.
+Print Assumptions rw_bv_extract_const_identity.
+
+Theorem rw_bv_merge_extend_identity : forall rho e e' l v,
+  (forall k u, lookup_v k rho = Some u -> match u with VV w n => (n < 2 ^ w)%N | _ => True end) ->
+  rw_bv_merge_extend e = Some l -> In e' l -> eval rho e = Some v -> eval rho e' = Some v.
+Proof. exact bv_merge_extend_identity. Qed.
+Print Assumptions rw_bv_merge_extend_identity.
+
+Theorem rw_bv_extract_zext_identity : forall bw rho e e' l v,
+  (forall k u, lookup_v k rho = Some u -> match u with VV w n => (n < 2 ^ w)%N | _ => True end) ->
+  (forall t w n, eval rho t = Some (VV w n) -> bw t = (-1)%Z \/ bw t = Z.of_N w) ->
+  rw_bv_extract_zext bw e = Some l -> In e' l -> eval rho e = Some v -> eval rho e' = Some v.
+Proof. exact bv_extract_zext_identity. Qed.
+Print Assumptions rw_bv_extract_zext_identity.
